@@ -192,7 +192,7 @@ func c19RoundTrip(c *mc.Ctx, v *rtp.VLA, w *ref.VLAValue, mask uint32) {
 }
 
 func c19Invalid(c *mc.Ctx) {
-	kind := c.Pick(9)
+	kind := c.Pick(10)
 	v, _ := c19Build(3, 1, 0x137, 2, 0, c.Bool())
 	what := ""
 	switch kind {
@@ -217,6 +217,14 @@ func c19Invalid(c *mc.Ctx) {
 		v.RTPStreamCount, v.RTPStreamID, what = 2, 1, "layer stream id not below the count"
 	case 8:
 		what = "valid (control)"
+	case 9: // no active layer: nothing but the count and the stream id to be wrong
+		v.ActiveSpatialLayer, v.HasResolutionAndFramerate = nil, false
+		if c.Bool() {
+			v.RTPStreamCount, v.RTPStreamID, what = mc.From(c, []int{-1, 0, 5}), 0, "stream count of an empty allocation"
+		} else {
+			v.RTPStreamCount = 1 + c.Pick(4)
+			v.RTPStreamID, what = mc.From(c, []int{-1, v.RTPStreamCount, 4}), "RID of an empty allocation"
+		}
 	}
 	b, err := v.Marshal()
 	c.Ops(1)
